@@ -17,7 +17,8 @@ LEVEL = 'fault_enumeration'
 BUDGET = {'quick': 300, 'thorough': 1500}
 RULE = ('Hypothesis-generated base histories (dispatch / disable / enable / add_handler / remove_handler over 1-4 '
         'recorder handlers listening to subsets of 4 event names, on a plain EventDispatcher or on a World used '
-        'as dispatcher). Each base history is executed fault-free and then once for EVERY pair (global delivery '
+        'as dispatcher; in some cases every dispatch issued while disabled is repeated 64-150 times: long backlogs, '
+        'faults then at sampled positions around the powers of two). Each base history is executed fault-free and then once for EVERY pair (global delivery '
         'position k, fault in {raise RuntimeError, raise Quit, raise SwitchWorld, set dispatch_enabled=False, '
         're-entrant dispatch_enabled=True, disable-then-enable inside the callback}), '
         'followed by enable; dispatch; enable; dispatch; enable. Oracle = trace invariants: an event dispatched while '
@@ -88,7 +89,9 @@ def strategy():
         'kind': st.integers(0, 1),
         'handlers': st.lists(st.integers(1, 15), min_size=1, max_size=4),
         'reg': st.integers(0, 15),
-        'ops': worldops.chunked(op, 30)})
+        'ops': worldops.chunked(op, 30),
+        # scale: 0, or how many times every dispatch issued while dispatching is disabled is repeated (long backlogs)
+        'amp': worldops.size_amp(none=40)})
 
 
 def _make_cb(ev):
@@ -239,7 +242,7 @@ class Execution:
             self.viol('unexpected_exception_from_' + what, exception=repr(exc),
                       injected=repr(self.current_exc))
 
-    def op_dispatch(self, sel):
+    def choose_event(self, sel):
         # operand values < 12 prefer events that currently have listeners (several if possible)
         ev = EVENTS[sel % 4]
         if sel < 12:
@@ -249,6 +252,40 @@ class Execution:
                 if cands:
                     ev = cands[sel % len(cands)]
                     break
+        return ev
+
+    def op_dispatch(self, sel):
+        if (self.case.get('amp') and self.enabled and sel % 2 and not getattr(self, '_in_bulk', False)
+                and self.step_ix < len(self.case['ops'])):
+            self.op_disable()           # long backlogs need a disabled dispatcher: half of the dispatches see to it
+        if self.case.get('amp') and not self.enabled and not getattr(self, '_in_bulk', False):
+            # a long backlog: the dispatch is repeated (each repetition an occurrence of its own).
+            # "...to the handlers registered at delivery time": first one occurrence of every other event that has
+            # listeners joins the backlog; while the backlog grows those listeners are away (removed), and they
+            # are registered again before anything is released
+            self._in_bulk = True
+            this_ev = self.choose_event(sel)
+            try:
+                for zi, z in enumerate(EVENTS):
+                    if z != this_ev and any(z in self.handlers[h].evs for h in self.registered if h < self.nfixed):
+                        self.op_dispatch(12 + zi)
+                waiting = {self.queued[t]['event'] for t in self.incomplete if t in self.queued}
+                away = [h for h in sorted(self.registered) if h < self.nfixed
+                        and (self.handlers[h].evs & (waiting - {this_ev}))]
+                for h in away:
+                    self.op_remove(h)
+                sel_this = 12 + EVENTS.index(this_ev)
+                for _ in range(self.case['amp'] - 1):
+                    self.op_dispatch(sel_this)
+                for h in away:
+                    self.op_add(h)
+            finally:
+                self._in_bulk = False
+            self.flags['long_backlog'] += 1
+            if away:
+                self.flags['listeners_away_while_the_backlog_grew'] += 1
+            sel = 12 + EVENTS.index(this_ev)
+        ev = self.choose_event(sel)
         token = self.next_token
         self.next_token += 1
         self.events_of[token] = ev
@@ -380,8 +417,15 @@ def run_case(case):
     m = base.deliveries
     execs = 1
     faults_in_release = 0
-    for k in range(m):
-        for kind in range(len(FAULTS)):
+    positions = range(m)
+    kinds = range(len(FAULTS))
+    if case.get('amp') and m > 40:
+        # long backlogs: faults are injected at the first and last delivery positions and around the powers of two
+        positions = sorted({k for k in ([0, 1, m - 1] + [b + d for b in (64, 128, 256) for d in (-1, 0, 1)])
+                            if 0 <= k < m})
+        kinds = (0, 3, 5)       # RuntimeError, disable, disable-then-enable
+    for k in positions:
+        for kind in kinds:
             e = Execution(case, (k, kind)).run()
             execs += 1
             if e.flags['fault_in_release']:
